@@ -822,7 +822,16 @@ def reduce_case(rec, doc):
 
 
 def run(ctx):
-    st = vlib.proof_stage(ctx, "C05", PROOF_TARGETS + ["TypifyModel.Proofs.Tagging"], PROOF_FILES + ["Proofs/Tagging.lean"], slices=["ir", "tag"])
+    st = vlib.proof_stage(ctx, "C05", PROOF_TARGETS + ["TypifyModel.Proofs.Tagging", "TypifyModel.Proofs.ConvertEnum"],
+                          PROOF_FILES + ["Proofs/Tagging.lean", "Proofs/ConvertEnum.lean"], slices=["ir", "tag", "enum"])
+    # what the `enum` keyword becomes (variants of a string enum, admitted values of a typed enumeration, Option for null):
+    # convert_enum_string / convert_typed_enum / convert_unknown_enum against Model/ConvertEnum.lean (M0)
+    import enumstage
+    estats, edis = enumstage.stage(ctx) if st["driver_ok"] else ({"ran": False}, [])
+    ctx.log("enumerations M0: %s disagreements=%d" % (estats, len(edis)))
+    if edis:
+        st["broken"].append("correspondence M0 (convert_enum_string / typed / unknown vs Model/ConvertEnum.lean) disagrees on %d of %d schemas, first: %s"
+                            % (len(edis), estats.get("compared", 0), json.dumps(edis[0])[:500]))
     # which tagging mode, tag, content member and variant names a union gets: enums.rs against Model/Tagging.lean (M0)
     import tagstage
     tstats, tdis = tagstage.stage(ctx, ctx.tier == "thorough") if st["driver_ok"] else ({"ran": False}, [])
@@ -1021,7 +1030,7 @@ def run(ctx):
     samples = [x.brief() for x in ([q for q in recs if q.kind == "length" and q.verdict is False][:2] +
                                    [q for q in recs if q.kind in ("tag", "required", "enum") and q.verdict is False][:3] + ev["survivors"][:2])]
     descr = gen.merge_descriptions([gen.describe(docs[c.tag]) for c in bc if c.compiled])
-    cov = {"union_shape_M0": tstats, "obligations": st["obligations"], "discharged": st["discharged"],
+    cov = {"union_shape_M0": tstats, "enumerations_M0": estats, "obligations": st["obligations"], "discharged": st["discharged"],
            "checker_cmd": "cd /verif/lean && lake build TypifyModel.Proofs.C05 && lake env lean TypifyModel/Audit/C05.lean && lake env lean TypifyModel/Audit/C11.lean",
            "trusted_base": vlib.TRUSTED_BASE + [
                "serde_derive/serde_json/regress behaviour is modelled (Model/Serde.lean), tied by M3 to the compiled generated code",
